@@ -104,7 +104,7 @@ impl Profile {
             Profile::High => 100,
             Profile::High422 => 122,
             Profile::High10 => 110,
-            Profile::High444 => 144,
+            Profile::High444 => 244,
             Profile::Extended => 88,
             Profile::ScalableBase => 83,
             Profile::ScalableHigh => 86,
